@@ -89,14 +89,18 @@ func (version Version) MarshalControl() (string, error) {
 
 func (v Version) StringWithoutEpoch() string {
 	result := v.Version
-	if len(v.Revision) > 0 {
+	// The revision is what follows the last hyphen, so an empty revision
+	// still needs its hyphen when the upstream version contains one.
+	if len(v.Revision) > 0 || strings.Contains(v.Version, "-") {
 		result += "-" + v.Revision
 	}
 	return result
 }
 
 func (v Version) String() string {
-	if v.Epoch > 0 {
+	// The epoch is what precedes the first colon, so a zero epoch still
+	// has to be printed when the upstream version contains a colon.
+	if v.Epoch > 0 || strings.Contains(v.Version, ":") {
 		return fmt.Sprintf("%d:%s", v.Epoch, v.StringWithoutEpoch())
 	}
 	return v.StringWithoutEpoch()
